@@ -375,7 +375,7 @@ impl Check for HostileCheck {
                                 run_packet_block("Midpointer", Box::new(b), p, NcOut::new(o, ser_vec::<f32>), desc, &solo, ctx)
                             }
                             1 => {
-                                let (b, o) = Wpcr::new(r);
+                                let (b, o) = if src.coin() { WpcrBuilder::new(r).samp_rate(*src.pick(&[50000.0f32, 0.0, f32::INFINITY])).build() } else { Wpcr::new(r) };
                                 run_packet_block("Wpcr", Box::new(b), p, NcOut::new(o, ser_vec::<f32>), desc, &solo, ctx)
                             }
                             _ => {
